@@ -49,6 +49,26 @@ CHECKS = {
             "explicit-state BFS to closure with keep-alive prompts, suspend/resume and limit faults at every state; the monitor keeps its own bit set of delivered bytes",
             "Every KeepAlive PDU and every receiver Fault/Resumed/Abandon indication must state the number of distinct bytes delivered to the receiver; every sender Fault/Resumed/Abandon the highest offset+length transmitted; never above the file size, never decreasing. Sizes 0,17,47 (more thorough), lossy link, blackout scenarios with default and Abandon handlers.",
             E1_NOTE, "DESIGN.md section 4 C20"),
+    "C12": ("enum", "exploration",
+            "bounded exhaustive enumeration of path names over a component alphabet for every filestore entry point; lexical oracle with an independent resolver plus before/after snapshot of everything outside the root",
+            "All names of <= 4 (quick) / 5 (thorough) components over {a, ., .., empty, the absolute root path, a sibling whose name extends the root's} with and without leading '/', through get_native_path, create/delete/rename/append/replace, create/remove/list directory, open (read, create-write), get_size and process_request with all nine actions, in a jail whose content outside the root is snapshotted around every operation.",
+            "The harness's own path resolver and snapshot are trusted; operations whose effective path lies outside the jail are not executed (the harness runs as root) but reported. Symlinks are not part of the alphabet.", "DESIGN.md section 4 C12"),
+    "C13": ("seq-mc", "model_checking",
+            "explicit-state BFS over filestore states: every transition is the real NativeFileStore::process_request on a re-materialised tree, compared with a pure reference model; plus txn-mc scenarios carrying request lists",
+            "Dispatcher: from every consistent tree over the namespace {f1,f2,d1,d1/f3,d2} all nine actions x first x second name (incl. a missing name and the empty name) to depth 2 (quick) / 3 (thorough): status code, echoed names and the whole resulting tree must equal the reference, a failed request changes nothing. Transaction level (txn-mc): request lists with a non-idempotent append under the C02/C04 fault budgets: no effect before the success indication, each effect once, in order, not-performed after the first failure or when delivery failed, same responses in the receiver's indication, the Finished PDU and the sender's indication.",
+            "Reference semantics follow the repository's own process_failures tests where CFDP and the code differ; seven classes the statement leaves open are listed under coverage.unconstrained_cases and never flagged.", "DESIGN.md section 4 C13"),
+    "C14": ("enum", "exploration",
+            "bounded exhaustive enumeration of contents, lengths and read-chunk schedules against the checksum definition written naively",
+            "FileChecksum::checksum on Cursor and real files for every length 0..=64, 8185..=8200, 16380..=16390 with ramp / all-FF / single-byte contents, and on a scripted Read+Seek for all 2^(n-1) compositions of every n <= 14 (quick) / 18 (thorough) plus boundary scripts around the 8 KiB BufReader buffer; Null gives 0; every single-byte change (3 values, all positions, lengths <= 64) changes the sum.",
+            "The naive reference (zero-pad, big-endian words, wrapping sum) is the CCSDS definition.", "DESIGN.md section 4 C14"),
+    "C16": ("enum", "fault_enumeration",
+            "exhaustive two-step histories on the real UdpTransport over loopback: every truncation of every datagram after every other datagram, differential against decoding the bytes alone",
+            "Corpus of 14 (quick) / 40 (thorough) valid datagrams (all PDU types, with/without CRC); for every ordered pair (L, V) and every truncation length t in 0..=len(V): send L, receive, send V[..t], receive on a fresh transport; the second result must equal PDU::decode(V[..t]) computed on those bytes alone, the first decode(L).",
+            "Needs loopback UDP (available in this sandbox; the repository's own integration tests need it too).", "DESIGN.md section 4 C16"),
+    "C17": ("txn-mc", "model_checking",
+            "explicit-state BFS to closure with blackout at every state and delay faults, exact virtual timestamps; plus explicit-state search of the real Counter against an integer reference",
+            "Limits 1-2 (quick) / 1-3 (thorough) x handler table {unset, cancel, ignore, suspend, abandon} for positive-ack, NAK, inactivity and check-limit faults, blackout placed at every state plus one delay fault, late answers (F=2 drops+delay), checksum/size faults by an injected bad EOF, a timeout grid with the inactivity timeout shorter than the others: no limit fault earlier than max_count x timeout after the first unanswered transmission / the last PDU received, retransmissions never earlier than one timeout apart and exactly max_count transmissions before the fault, answers reset the count, and the action taken at every declared fault is the configured one (nothing transmitted after Abandon/Suspend).",
+            E1_NOTE + " Time does not pass while a transaction has a PDU ready for its transport (a local transport stalled for a whole timer period is not modelled).", "DESIGN.md section 4 C17"),
     "C09": ("seq-mc", "model_checking",
             "explicit-state BFS to closure over the real Segments::merge with a bit-set reference model, all queries evaluated in every state",
             "Every merge sequence over an M-position universe (M=8 quick, 11 thorough) at three bases (0, straddling 2^32, ending at 2^64-1) is explored to closure (all 2^M held-sets per base); in every reached state all is_complete(n) and all gaps(s,e) windows are compared with a bit set, and every merge return with the growth of the union. Exhaustive within the universe, which is the right level for a pure data structure whose defects are about range shapes, not magnitudes.",
